@@ -1,14 +1,23 @@
 //! C15 (and the provider-error part of C04): fault sweep.  For every operation of a scenario and every call it
 //! makes into the application's storage / key-package / PSK (and, for C04, identity) providers, fail that call
-//! once (thorough: also a second failure on the retry).  Oracle: the operation returns an error, the member's
-//! complete state and its stored history are unchanged, the retry succeeds and reaches the state (and stored
-//! history) of the fault-free run.
+//! once, and a second time on the retry (quick tier: a few pairs, thorough tier: all pairs).  Oracle: the
+//! operation returns an error, the member's complete state and its stored history are unchanged, the retry
+//! succeeds and reaches the state of the fault-free run, and what the member then stores (snapshot bytes and
+//! every epoch record) is byte-identical to what the fault-free run stores.
+//!
+//! Operations: create_group, generate_key_package_message, join_group, load_group, processing a proposal / an
+//! application message of the current epoch / of a prior epoch that is only in storage / a commit (by-value and
+//! by-reference proposals, external and resumption PSKs, a re-init, the receiver's own pending Update),
+//! apply_pending_commit, building a commit, write_to_storage.  A sweep that finds no provider call to fail is a
+//! failure ("nothing to fault in <op>") unless the operation legitimately makes none (`no-provider-call:<op>`).
 use crate::providers::*;
 use crate::util::{Opts, Rng};
 use crate::world::*;
 use mls_rs::client_builder::MlsConfig;
 use mls_rs::group::ReceivedMessage;
 use mls_rs::{Client, Group, MlsMessage};
+use mls_rs_core::group::GroupStateStorage;
+use mls_rs_core::key_package::KeyPackageData;
 use std::collections::{BTreeMap, BTreeSet};
 
 pub type Mk<'a, C> = &'a dyn Fn(&Setup, &Handles, mls_rs::identity::SigningIdentity, mls_rs::crypto::SignatureSecretKey) -> Client<C>;
@@ -20,6 +29,17 @@ pub struct Out {
     pub cover: BTreeSet<String>,
     pub by_call: BTreeMap<String, u64>,
     pub samples: Vec<String>,
+    /// `--skip-byref-build 1`: leave out the sweep `build-commit-byref` (a provider failure while the committer validates cached
+    /// by-reference proposals drops the proposal instead of failing the build: reported as a finding while this is 0)
+    pub skip_byref_build: bool,
+}
+
+/// second fault on the retry: not at all, a few pairs (same call twice, first/last crossed), every pair
+#[derive(Clone, Copy, PartialEq, Debug)]
+pub enum Pairs {
+    None,
+    Few,
+    All,
 }
 
 pub fn new_client<C: MlsConfig>(w: &mut World<C>, mk: Mk<C>, name: &str, sqlite: bool, retention: usize) -> usize {
@@ -36,21 +56,110 @@ pub fn new_client<C: MlsConfig>(w: &mut World<C>, mk: Mk<C>, name: &str, sqlite:
     w.members.len() - 1
 }
 
-/// What the member's storage holds for its group: snapshot bytes, max id, and every retained epoch record.
-pub fn stored<C: MlsConfig>(w: &World<C>, i: usize) -> (Option<Vec<u8>>, Option<u64>, Vec<(u64, Vec<u8>)>) {
-    let Some(g) = w.members[i].group.as_ref() else { return (None, None, vec![]) };
-    let gid = g.group_id().to_vec();
-    let st = &w.members[i].h.store;
-    let max = st.peek_max(&gid);
+type Stored = (Option<Vec<u8>>, Option<u64>, Vec<(u64, Vec<u8>)>);
+
+/// What a storage holds for one group: snapshot bytes, max id, and every retained epoch record.
+fn stored_of(st: &VStore, gid: &[u8]) -> Stored {
+    let max = st.peek_max(gid);
     let mut eps = vec![];
     if let Some(m) = max {
         for id in m.saturating_sub(12)..=m + 1 {
-            if let Some(d) = st.peek_epoch(&gid, id) {
+            if let Some(d) = st.peek_epoch(gid, id) {
                 eps.push((id, d));
             }
         }
     }
-    (st.peek_state(&gid), max, eps)
+    (st.peek_state(gid), max, eps)
+}
+
+/// What the member's storage holds for its group: snapshot bytes, max id, and every retained epoch record.
+pub fn stored<C: MlsConfig>(w: &World<C>, i: usize) -> (Option<Vec<u8>>, Option<u64>, Vec<(u64, Vec<u8>)>) {
+    let Some(g) = w.members[i].group.as_ref() else { return (None, None, vec![]) };
+    stored_of(&w.members[i].h.store, g.group_id())
+}
+
+/// Where two stored histories differ (empty = byte-identical).
+fn stored_diff(a: &Stored, b: &Stored) -> Vec<String> {
+    let mut d = vec![];
+    if a.0 != b.0 {
+        d.push(format!("snapshot bytes ({} vs {} bytes)", a.0.as_ref().map(|x| x.len()).unwrap_or(0), b.0.as_ref().map(|x| x.len()).unwrap_or(0)));
+    }
+    if a.1 != b.1 {
+        d.push(format!("max epoch id {:?} vs {:?}", a.1, b.1));
+    }
+    let ia: Vec<u64> = a.2.iter().map(|x| x.0).collect();
+    let ib: Vec<u64> = b.2.iter().map(|x| x.0).collect();
+    if ia != ib {
+        d.push(format!("epoch ids {ia:?} vs {ib:?}"));
+    } else {
+        for (x, y) in a.2.iter().zip(b.2.iter()) {
+            if x.1 != y.1 {
+                d.push(format!("bytes of epoch record {}", x.0));
+            }
+        }
+    }
+    d
+}
+
+/// number of group ids the storage knows (a failed create / join must not leave one behind)
+fn stored_group_count(st: &VStore) -> usize {
+    match &st.backend {
+        StoreBackend::Mem(m) => m.stored_groups().len(),
+        #[cfg(feature = "sqlite")]
+        StoreBackend::Sql(s) => s.group_ids().map(|v| v.len()).unwrap_or(usize::MAX),
+    }
+}
+
+/// The application-side environment of one member for one group: stored history and key-package store.  Restoring it lets
+/// the same (cloned) group run a storage-mutating operation again, so that the bytes it stores are comparable.
+struct Env {
+    gid: Vec<u8>,
+    st: Stored,
+    kps: Vec<(Vec<u8>, KeyPackageData)>,
+}
+
+fn kp_ids(h: &Handles) -> Vec<Vec<u8>> {
+    let mut v: Vec<Vec<u8>> = h.kp.inner.key_packages().into_iter().map(|x| x.0).collect();
+    v.sort();
+    v
+}
+
+fn env_snap(h: &Handles, gid: &[u8]) -> Env {
+    Env { gid: gid.to_vec(), st: stored_of(&h.store, gid), kps: h.kp.inner.key_packages() }
+}
+
+/// `false` = the back end could not be brought back to the snapshot exactly (then byte comparisons are meaningless)
+fn env_restore(h: &Handles, env: &Env) -> bool {
+    let gs = || mls_rs_core::group::GroupState { id: env.gid.clone(), data: zeroize::Zeroizing::new(env.st.0.clone().unwrap_or_default()) };
+    let ins = || env.st.2.iter().map(|(id, d)| mls_rs_core::group::EpochRecord::new(*id, zeroize::Zeroizing::new(d.clone()))).collect::<Vec<_>>();
+    match &h.store.backend {
+        StoreBackend::Mem(m) => {
+            m.delete_group(&env.gid);
+            if env.st.0.is_some() {
+                let mut m2 = m.clone();
+                let _ = m2.write(gs(), ins(), vec![]);
+            }
+        }
+        #[cfg(feature = "sqlite")]
+        StoreBackend::Sql(s) => {
+            let _ = s.delete_group(&env.gid);
+            if env.st.0.is_some() {
+                let mut s2 = s.clone();
+                let _ = s2.write(gs(), ins(), vec![]);
+            }
+        }
+    }
+    let now: BTreeSet<Vec<u8>> = h.kp.inner.key_packages().into_iter().map(|x| x.0).collect();
+    let want: BTreeSet<Vec<u8>> = env.kps.iter().map(|x| x.0.clone()).collect();
+    for id in now.difference(&want) {
+        h.kp.inner.delete(id);
+    }
+    for (id, d) in &env.kps {
+        if !now.contains(id) {
+            h.kp.inner.insert(id.clone(), d.clone());
+        }
+    }
+    stored_of(&h.store, &env.gid) == env.st && kp_ids(h).len() == env.kps.len()
 }
 
 fn comps_relevant(c: &[(String, Vec<u8>)]) -> Vec<(String, Vec<u8>)> {
@@ -58,8 +167,68 @@ fn comps_relevant(c: &[(String, Vec<u8>)]) -> Vec<(String, Vec<u8>)> {
     c.iter().filter(|(k, _)| k != "repo_pending_updates").cloned().collect()
 }
 
-/// Sweep one deterministic operation `f` on member `i`: every counted provider call fails once.
-/// `twin`: run fault-free on a clone first to learn the calls and the expected final state.
+fn comp<'a>(c: &'a [(String, Vec<u8>)], k: &str) -> &'a [u8] {
+    c.iter().find(|(n, _)| n == k).map(|(_, v)| v.as_slice()).unwrap_or(&[])
+}
+
+fn count_fired(out: &mut Out, fired: &[String]) {
+    out.injected += fired.len() as u64;
+    for c in fired {
+        let k = c.split(':').nth(1).unwrap_or("").split(' ').next().unwrap_or("").to_string();
+        *out.by_call.entry(k).or_default() += 1;
+    }
+}
+
+fn plans_for(ncalls: u64, pairs: Pairs) -> Vec<Vec<u64>> {
+    let mut v: Vec<Vec<u64>> = (1..=ncalls).map(|n| vec![n]).collect();
+    match pairs {
+        Pairs::None => {}
+        Pairs::Few => {
+            for n in 1..=ncalls {
+                v.push(vec![n, n]);
+            }
+            if ncalls > 1 {
+                v.push(vec![1, ncalls]);
+                v.push(vec![ncalls, 1]);
+            }
+        }
+        Pairs::All => {
+            for a in 1..=ncalls {
+                for b in 1..=ncalls {
+                    v.push(vec![a, b]);
+                }
+            }
+        }
+    }
+    v
+}
+
+fn op_base(opname: &str) -> &str {
+    opname.split('[').next().unwrap_or(opname)
+}
+
+fn set_prefixes(h: &Handles, prefixes: &[&str]) {
+    h.fault.lock().unwrap().counted_prefixes = prefixes.iter().map(|s| s.to_string()).collect();
+}
+
+/// What `g` (a state of member `i`) would store if it were written now: the write runs on a clone and the member's
+/// storage and key-package store are put back afterwards.  `None` = the write failed or the environment could not be restored.
+fn write_probe<C: MlsConfig>(w: &World<C>, i: usize, g: &Group<C>) -> Option<(Stored, Vec<Vec<u8>>)> {
+    let h = &w.members[i].h;
+    let env = env_snap(h, g.group_id());
+    w.fault_arm(i, vec![]);
+    let mut c = g.clone();
+    let r = std::panic::catch_unwind(std::panic::AssertUnwindSafe(|| c.write_to_storage()));
+    let res = (stored_of(&h.store, g.group_id()), kp_ids(h));
+    let restored = env_restore(h, &env);
+    w.fault_arm(i, vec![]);
+    (matches!(r, Ok(Ok(()))) && restored).then_some(res)
+}
+
+/// Sweep one deterministic operation `f` on member `i`: every counted provider call fails once (and, per `pairs`, again on
+/// the retry).  The fault-free run on a clone comes first: it enumerates the calls and gives the expected final state.
+/// `zero_ok`: the reason why the operation may legitimately make no provider call at all (otherwise an empty sweep is a failure).
+/// Returns the number of provider calls enumerated.
 #[allow(clippy::too_many_arguments)]
 pub fn sweep<C: MlsConfig>(
     w: &mut World<C>,
@@ -67,15 +236,17 @@ pub fn sweep<C: MlsConfig>(
     opname: &str,
     prefixes: &[&str],
     deterministic: bool,
-    pairs: bool,
+    pairs: Pairs,
+    zero_ok: Option<&str>,
     out: &mut Out,
     f: &dyn Fn(&mut Group<C>) -> Result<(), mls_rs::error::MlsError>,
-) {
+) -> usize {
     let name = w.members[i].setup.name.clone();
-    w.members[i].h.fault.lock().unwrap().counted_prefixes = prefixes.iter().map(|s| s.to_string()).collect();
+    set_prefixes(&w.members[i].h, prefixes);
     // dry run on a clone: enumerate the calls
     let base = w.members[i].group.clone().expect("group");
     let stored0 = stored(w, i);
+    let kp0 = kp_ids(&w.members[i].h);
     w.fault_arm(i, vec![]);
     let mut twin = base.clone();
     let dry = std::panic::catch_unwind(std::panic::AssertUnwindSafe(|| f(&mut twin)));
@@ -84,58 +255,56 @@ pub fn sweep<C: MlsConfig>(
     let dry_ok = matches!(dry, Ok(Ok(())));
     if !dry_ok {
         out.fails.push(format!("{opname} by {name} fails without any fault: {:?}", dry.map(|r| r.map_err(|e| err_class(&e)))));
-        return;
+        return 0;
     }
     let expected = comps_relevant(&twin.verif_components());
     let writes_storage = calls.iter().any(|c| c.contains("storage.write") || c.contains("kp.delete") || c.contains("kp.insert"));
     let stored_expected = stored(w, i);
-    if writes_storage {
-        // the dry run itself changed the storage; this sweep therefore works on fresh worlds (see callers)
-    }
     out.cover.insert(format!("{opname}:calls={}", calls.len().min(9)));
-    let ncalls = calls.len() as u64;
-    let plans: Vec<Vec<u64>> = if pairs {
-        let mut v: Vec<Vec<u64>> = (1..=ncalls).map(|n| vec![n]).collect();
-        for a in 1..=ncalls {
-            for b in 1..=ncalls {
-                v.push(vec![a, b]);
+    if calls.is_empty() {
+        match zero_ok {
+            Some(reason) => {
+                out.cover.insert(format!("no-provider-call:{}:{reason}", op_base(opname)));
             }
+            None => out.fails.push(format!("nothing to fault in {opname}")),
         }
-        v
-    } else {
-        (1..=ncalls).map(|n| vec![n]).collect()
-    };
+    }
+    let ncalls = calls.len() as u64;
+    let plans = plans_for(ncalls, pairs);
     if writes_storage {
-        // storage-mutating operations cannot be replayed on the same storage: handled by `sweep_fresh`
+        // storage-mutating operations cannot be replayed on the same storage: handled by the dedicated sweeps
         w.fault_reset(i);
-        return;
+        return calls.len();
+    }
+    // what the fault-free result stores when it is written
+    let probe_expected = if deterministic { write_probe(w, i, &twin) } else { None };
+    if deterministic && probe_expected.is_none() {
+        out.fails.push(format!("{opname} by {name}: the fault-free result cannot be written / the storage cannot be restored"));
     }
     for plan in plans {
         let mut g = base.clone();
         let before = comps_relevant(&g.verif_components());
         let mut attempt = 0;
         let mut ok_finally = false;
+        let mut gave_up = false;
+        if plan.len() > 1 {
+            out.cover.insert(format!("pair:{}", op_base(opname)));
+        }
         for &n in &plan {
             attempt += 1;
             w.fault_arm(i, vec![n]);
             let r = std::panic::catch_unwind(std::panic::AssertUnwindSafe(|| f(&mut g)));
             let fired = w.fault_fired(i);
-            out.injected += fired.len() as u64;
-            for c in &fired {
-                let k = c.split(':').nth(1).unwrap_or("").split(' ').next().unwrap_or("").to_string();
-                *out.by_call.entry(k).or_default() += 1;
-            }
+            count_fired(out, &fired);
             match r {
                 Err(_) => {
                     out.fails.push(format!("{opname} by {name}: panic with fault at call {n} ({})", calls.get(n as usize - 1).cloned().unwrap_or_default()));
+                    gave_up = true;
                     break;
                 }
                 Ok(Ok(())) => {
                     if !fired.is_empty() {
-                        out.fails.push(format!(
-                            "{opname} by {name} reported success although call {} failed",
-                            fired.join(",")
-                        ));
+                        out.fails.push(format!("{opname} by {name} reported success although call {} failed", fired.join(",")));
                     }
                     ok_finally = true;
                     break;
@@ -144,22 +313,26 @@ pub fn sweep<C: MlsConfig>(
                     if fired.is_empty() {
                         // call n not reached in this attempt (earlier calls changed): not a fault-induced error
                         out.fails.push(format!("{opname} by {name} failed without an injected fault on attempt {attempt}: {}", err_class(&e)));
+                        gave_up = true;
                         break;
                     }
+                    out.cover.insert(format!("fault-reported-as:{}", err_class(&e)));
                     let after = comps_relevant(&g.verif_components());
                     let ch = World::<C>::changed(&before, &after);
                     if !ch.is_empty() {
-                        out.fails.push(format!(
-                            "{opname} by {name}: fault at {} left the member changed in {:?}",
-                            fired.join(","),
-                            ch
-                        ));
+                        out.fails.push(format!("{opname} by {name}: fault at {} left the member changed in {:?}", fired.join(","), ch));
                     }
                     if stored(w, i) != stored0 {
                         out.fails.push(format!("{opname} by {name}: fault at {} changed the stored history", fired.join(",")));
                     }
+                    if kp_ids(&w.members[i].h) != kp0 {
+                        out.fails.push(format!("{opname} by {name}: fault at {} changed the key-package store", fired.join(",")));
+                    }
                 }
             }
+        }
+        if gave_up {
+            continue;
         }
         if !ok_finally {
             w.fault_arm(i, vec![]);
@@ -184,26 +357,71 @@ pub fn sweep<C: MlsConfig>(
             if stored(w, i) != stored_expected {
                 out.fails.push(format!("{opname} by {name}: stored history after retry differs from the fault-free run"));
             }
+            // ... and what it stores at its next write is byte-identical to what the fault-free run stores
+            if let Some((exp_st, exp_kp)) = &probe_expected {
+                match write_probe(w, i, &g) {
+                    Some((st, kp)) => {
+                        let d = stored_diff(exp_st, &st);
+                        if !d.is_empty() {
+                            out.fails.push(format!("{opname} by {name}: after fault(s) {:?} and retry, the written history differs from the fault-free run in {:?}", plan, d));
+                        }
+                        if &kp != exp_kp {
+                            out.fails.push(format!("{opname} by {name}: after fault(s) {:?} and retry, the key-package store after a write differs from the fault-free run", plan));
+                        }
+                        out.cover.insert("written-bytes-compared:op".into());
+                    }
+                    None => out.fails.push(format!("{opname} by {name}: after fault(s) {:?} and retry the member cannot be written", plan)),
+                }
+            }
         }
     }
     w.fault_reset(i);
-    if out.samples.len() < 6 {
+    if out.samples.len() < 12 {
         out.samples.push(format!("{opname} by {name}: calls {:?}", calls));
+    }
+    calls.len()
+}
+
+/// What the commit that B processes looks like.
+#[derive(Clone, Copy, PartialEq, Debug)]
+pub enum Flavor {
+    /// by-value external PSK, plus a by-value Add of D or a resumption PSK; C's Update by reference
+    Plain,
+    /// everything by reference, proposed by C: an external PSK and the Add of D
+    ByRef,
+    /// a re-init (by value, or proposed by C); B has nothing unwritten, so its repository asks the storage
+    ReInit,
+    /// B has a pending Update of its own (committed by A, or not seen by A), plus a by-value external PSK
+    OwnUpdate,
+}
+
+impl Flavor {
+    fn tag(self) -> &'static str {
+        match self {
+            Flavor::Plain => "",
+            Flavor::ByRef => "-byref",
+            Flavor::ReInit => "-reinit",
+            Flavor::OwnUpdate => "-ownupd",
+        }
     }
 }
 
-/// Build the standard scenario up to `stage` and return the world; member 1 (B) is the subject.
-/// Stages create situations in which B has: a commit to process (with PSK / resumption PSK / adds),
-/// a pending commit to apply, unwritten epochs to persist, a Welcome to join with.
+/// Build the standard scenario and return the world; member 1 (B) is the subject.
+/// Situations: B has proposals, application messages (current epoch, prior epoch) and a commit to process (per `Flavor`),
+/// A a pending commit to apply, everybody unwritten epochs to persist, D a Welcome to join with.
 pub struct Scene<C: MlsConfig> {
     pub w: World<C>,
     pub commit_for_b: Option<MlsMessage>,
     pub welcome_for_d: Option<MlsMessage>,
-    pub proposal_for_b: Option<MlsMessage>,
+    /// (sender, message); A has processed them when `a_saw_proposals`
+    pub proposals: Vec<(usize, MlsMessage)>,
     pub app_for_b: Option<MlsMessage>,
+    /// an application message of A from the epoch before the current one
+    pub late_app_for_b: Option<MlsMessage>,
+    pub flavor: Flavor,
 }
 
-pub fn scene<C: MlsConfig>(rng: &mut Rng, mk: Mk<C>, variant: u64, sqlite: bool) -> Result<Scene<C>, String> {
+pub fn scene<C: MlsConfig>(rng: &mut Rng, mk: Mk<C>, variant: u64, sqlite: bool, flavor: Flavor) -> Result<Scene<C>, String> {
     let mut w: World<C> = new_world(Default::default(), "/tmp/vharness-scratch-c15");
     let psk_id = rng.bytes(8);
     let psk_val = rng.bytes(32);
@@ -237,7 +455,10 @@ pub fn scene<C: MlsConfig>(rng: &mut Rng, mk: Mk<C>, variant: u64, sqlite: bool)
     }
     // a few epochs so that prior epochs exist (some written, some not)
     let epochs = 1 + variant % 3;
+    let mut late = None;
     for e in 0..epochs {
+        // A's application message of the epoch that is about to end
+        late = w.with_group(0, |g| g.encrypt_application_message(b"late", vec![])).1;
         let c = (e % 3) as usize;
         let (r, o) = w.with_group(c, |g| g.commit(vec![]));
         let o = o.ok_or(format!("setup epoch commit {}", r.s()))?;
@@ -258,225 +479,795 @@ pub fn scene<C: MlsConfig>(rng: &mut Rng, mk: Mk<C>, variant: u64, sqlite: bool)
             }
         }
     }
+    if flavor == Flavor::ReInit {
+        // nothing unwritten at B: entering the next epoch asks the storage for the last stored epoch id
+        let (r, _) = w.with_group(1, |g| g.write_to_storage());
+        if !r.ok() {
+            return Err(format!("setup write {}", r.s()));
+        }
+        w.members[1].wrote = true;
+    }
     // traffic for B in the current epoch
     let (_, app) = w.with_group(0, |g| g.encrypt_application_message(b"hello", vec![]));
-    let (_, prop) = w.with_group(2, |g| g.propose_update(vec![]));
-    // A's commit for B to process: by-value add of D, external PSK, optionally a resumption PSK
     let kpd = w.members[3].client.generate_key_package_message(Default::default(), Default::default(), None).unwrap();
     let use_res = variant % 4 >= 2;
     let cur_epoch = w.group(0).current_epoch();
     let pid = psk_id.clone();
-    if let Some(p) = &prop {
-        let p = p.clone();
-        w.with_group(0, |g| g.process_incoming_message(p));
+    let mut proposals: Vec<(usize, MlsMessage)> = vec![];
+    let mut a_sees = true;
+    match flavor {
+        Flavor::Plain => {
+            if let (_, Some(p)) = w.with_group(2, |g| g.propose_update(vec![])) {
+                proposals.push((2, p));
+            }
+        }
+        Flavor::ByRef => {
+            let pid2 = pid.clone();
+            let (r, p) = w.with_group(2, |g| g.propose_external_psk(ext_psk_id(&pid2), vec![]));
+            proposals.push((2, p.ok_or(format!("propose psk {}", r.s()))?));
+            let kp = kpd.clone();
+            let (r, p) = w.with_group(2, |g| g.propose_add(kp, vec![]));
+            proposals.push((2, p.ok_or(format!("propose add {}", r.s()))?));
+        }
+        Flavor::ReInit => {
+            if variant % 2 == 1 {
+                let (r, p) = w.with_group(2, |g| g.propose_reinit(None, mls_rs::ProtocolVersion::MLS_10, mls_rs::CipherSuite::from(1u16), Default::default(), vec![]));
+                proposals.push((2, p.ok_or(format!("propose reinit {}", r.s()))?));
+            }
+        }
+        Flavor::OwnUpdate => {
+            a_sees = variant % 2 == 0;
+            // the Update that A commits also changes B's signature key: the new signer belongs to the new epoch only
+            let (nid, nsk) = make_identity("B", 1);
+            let (r, p) = w.with_group(1, |g| if a_sees { g.propose_update_with_identity(nsk, nid, vec![]) } else { g.propose_update(vec![]) });
+            proposals.push((1, p.ok_or(format!("propose own update {}", r.s()))?));
+        }
     }
+    if a_sees {
+        for (_, p) in &proposals {
+            let p = p.clone();
+            let (r, _) = w.with_group(0, |g| g.process_incoming_message(p));
+            if !r.ok() {
+                return Err(format!("A processes a proposal: {}", r.s()));
+            }
+        }
+    }
+    let by_value_reinit = flavor == Flavor::ReInit && variant % 2 == 0;
     let (r, o) = w.with_group(0, |g| {
-        let mut b = g.commit_builder().add_external_psk(ext_psk_id(&pid))?;
-        if use_res && cur_epoch >= 1 {
-            // a new member cannot know a resumption secret of an epoch it was not part of: no add here
-            b = b.add_resumption_psk(cur_epoch - 1)?;
-        } else {
-            b = b.add_member(kpd)?;
+        let mut b = g.commit_builder();
+        match flavor {
+            Flavor::Plain => {
+                b = b.add_external_psk(ext_psk_id(&pid))?;
+                if use_res && cur_epoch >= 1 {
+                    // a new member cannot know a resumption secret of an epoch it was not part of: no add here
+                    b = b.add_resumption_psk(cur_epoch - 1)?;
+                } else {
+                    b = b.add_member(kpd)?;
+                }
+            }
+            Flavor::ByRef => {}
+            Flavor::ReInit => {
+                if by_value_reinit {
+                    b = b.reinit(None, mls_rs::ProtocolVersion::MLS_10, mls_rs::CipherSuite::from(1u16), Default::default())?;
+                }
+            }
+            Flavor::OwnUpdate => {
+                b = b.add_external_psk(ext_psk_id(&pid))?;
+            }
         }
         b.build()
     });
     let o = o.ok_or(format!("scenario commit {}", r.s()))?;
-    Ok(Scene { w, commit_for_b: Some(o.commit_message.clone()), welcome_for_d: o.welcome_messages.first().cloned(), proposal_for_b: prop, app_for_b: app })
+    if !o.unused_proposals.is_empty() {
+        return Err(format!("scenario commit leaves {} proposals unused", o.unused_proposals.len()));
+    }
+    Ok(Scene { w, commit_for_b: Some(o.commit_message.clone()), welcome_for_d: o.welcome_messages.first().cloned(), proposals, app_for_b: app, late_app_for_b: late, flavor })
 }
 
-pub fn run_sweeps<C: MlsConfig>(rng: &mut Rng, mk: Mk<C>, out: &mut Out, prefixes: &[&str], pairs: bool, variants: u64) {
+fn flavors_of(variant: u64) -> [Flavor; 3] {
+    let x = [Flavor::ByRef, Flavor::ReInit, Flavor::OwnUpdate];
+    let k = ((variant + variant / 3) % 3) as usize;
+    [Flavor::Plain, x[k], x[(k + 1) % 3]]
+}
+
+pub fn run_sweeps<C: MlsConfig>(rng: &mut Rng, mk: Mk<C>, out: &mut Out, prefixes: &[&str], pairs: Pairs, variants: u64) {
     for variant in 0..variants {
         for sqlite in [false, true] {
             if sqlite && variant % 3 != 0 {
                 continue;
             }
-            let tag = format!("v{variant}{}", if sqlite { "-sqlite" } else { "" });
-            // --- B processes a proposal, an application message and then A's commit --------------------------
-            let sc = match scene(rng, mk, variant, sqlite) {
-                Ok(s) => s,
-                Err(e) => {
-                    out.fails.push(format!("scene {tag}: {e}"));
-                    continue;
-                }
-            };
-            let Scene { mut w, commit_for_b, welcome_for_d, proposal_for_b, app_for_b } = sc;
-            if let Some(p) = proposal_for_b.clone() {
-                sweep(&mut w, 1, &format!("process-proposal[{tag}]"), prefixes, true, pairs, out, &move |g| g.process_incoming_message(p.clone()).map(|_| ()));
-                let p2 = proposal_for_b.clone().unwrap();
-                w.with_group(1, |g| g.process_incoming_message(p2));
-            }
-            if let Some(a) = app_for_b.clone() {
-                sweep(&mut w, 1, &format!("process-app[{tag}]"), prefixes, true, pairs, out, &move |g| g.process_incoming_message(a.clone()).map(|_| ()));
-            }
-            let cm = commit_for_b.clone().unwrap();
-            let cm2 = cm.clone();
-            sweep(&mut w, 1, &format!("process-commit[{tag}]"), prefixes, true, pairs, out, &move |g| g.process_incoming_message(cm2.clone()).map(|_| ()));
-            // --- A applies its pending commit ------------------------------------------------------------------
-            sweep(&mut w, 0, &format!("apply-pending[{tag}]"), prefixes, true, pairs, out, &|g| g.apply_pending_commit().map(|_| ()));
-            // --- C builds a commit of its own (fails on purpose nowhere; faults in PSK / storage lookups) -------
-            let pid: Vec<u8> = w.psks.keys().next().cloned().unwrap();
-            let ce = w.group(2).current_epoch();
-            sweep(&mut w, 2, &format!("build-commit[{tag}]"), prefixes, false, pairs, out, &move |g| {
-                let mut b = g.commit_builder().add_external_psk(ext_psk_id(&pid))?;
-                if ce >= 1 {
-                    b = b.add_resumption_psk(ce - 1)?;
-                }
-                let r = b.build().map(|_| ());
-                if r.is_ok() {
-                    g.clear_pending_commit();
-                }
-                r
-            });
-            // --- D joins through the Welcome (fresh client state per attempt is not possible: key package store is
-            //     shared, so this sweep also checks that a failed join does not consume the key package) ----------
-            if let Some(wm) = welcome_for_d {
-                let fault = w.members[3].h.fault.clone();
-                fault.lock().unwrap().counted_prefixes = prefixes.iter().map(|s| s.to_string()).collect();
-                w.fault_arm(3, vec![]);
-                // dry run to count calls (join does not persist anything by itself)
-                let dry = w.members[3].client.join_group(None, &wm, None);
-                let calls = w.fault_log(3);
-                out.ops += 1;
-                if dry.is_err() {
-                    out.fails.push(format!("join[{tag}] fails without fault: {}", dry.err().map(|e| err_class(&e)).unwrap_or_default()));
-                } else {
-                    for n in 1..=calls.len() as u64 {
-                        w.fault_arm(3, vec![n]);
-                        let r = std::panic::catch_unwind(std::panic::AssertUnwindSafe(|| w.members[3].client.join_group(None, &wm, None)));
-                        let fired = w.fault_fired(3);
-                        out.injected += fired.len() as u64;
-                        for c in &fired {
-                            let k = c.split(':').nth(1).unwrap_or("").split(' ').next().unwrap_or("").to_string();
-                            *out.by_call.entry(k).or_default() += 1;
-                        }
-                        match r {
-                            Err(_) => out.fails.push(format!("join[{tag}]: panic with fault at call {n}")),
-                            Ok(Ok(_)) if !fired.is_empty() => out.fails.push(format!("join[{tag}] succeeded although {} failed", fired.join(","))),
-                            _ => {}
-                        }
-                        w.fault_arm(3, vec![]);
-                        if let Err(e) = w.members[3].client.join_group(None, &wm, None) {
-                            out.fails.push(format!("join[{tag}]: retry after fault at {} fails: {}", calls[n as usize - 1], err_class(&e)));
-                        }
+            for flavor in flavors_of(variant) {
+                let tag = format!("v{variant}{}{}", flavor.tag(), if sqlite { "-sqlite" } else { "" });
+                let sc = match scene(rng, mk, variant, sqlite, flavor) {
+                    Ok(s) => s,
+                    Err(e) => {
+                        out.fails.push(format!("scene {tag}: {e}"));
+                        continue;
                     }
-                    out.cover.insert(format!("join:calls={}", calls.len().min(9)));
-                }
-                w.fault_reset(3);
-            }
-            // --- write_to_storage with unwritten epochs: every call fails once, on fresh copies of the scenario ----
-            write_sweep(rng, mk, out, prefixes, variant, sqlite, &tag);
-            for m in &w.members {
-                if let Some(p) = &m.h.sqlite_path {
-                    let _ = std::fs::remove_file(p);
-                }
+                };
+                out.cover.insert(format!("flavor:{flavor:?}"));
+                sweep_scene(rng, mk, out, prefixes, pairs, variant, sqlite, &tag, sc);
             }
         }
     }
 }
 
-/// write_to_storage mutates the storage, so every injected fault runs on a freshly built scenario and is
-/// compared with a fault-free twin scenario built from the same seed (stored history: ids and count).
-fn write_sweep<C: MlsConfig>(rng: &mut Rng, mk: Mk<C>, out: &mut Out, prefixes: &[&str], variant: u64, sqlite: bool, tag: &str) {
-    let seed = rng.next();
-    // subject: member 3 (D) right after joining (its first write also deletes the used key package), or B
-    for subject in [1usize, 3] {
-        let build = |seed: u64| -> Option<World<C>> {
-            let mut r = Rng::new(seed);
-            let sc = scene(&mut r, mk, variant, sqlite).ok()?;
-            let Scene { mut w, commit_for_b, welcome_for_d, proposal_for_b, .. } = sc;
-            let cm = commit_for_b?;
-            if let Some(p) = proposal_for_b {
-                w.with_group(1, |g| g.process_incoming_message(p));
-            }
-            w.with_group(0, |g| g.apply_pending_commit());
-            for i in 1..3 {
-                let m = cm.clone();
-                let (r, _) = w.with_group(i, |g| g.process_incoming_message(m));
-                if !r.ok() {
-                    return None;
-                }
-            }
-            if let Some(wm) = welcome_for_d {
-                let (g, _) = w.members[3].client.join_group(None, &wm, None).ok()?;
-                w.members[3].group = Some(g);
-            }
-            Some(w)
-        };
-        let Some(mut w0) = build(seed) else {
-            out.fails.push(format!("write-sweep scene {tag} cannot be built"));
-            return;
-        };
-        if w0.members[subject].group.is_none() {
+#[allow(clippy::too_many_arguments)]
+fn sweep_scene<C: MlsConfig>(rng: &mut Rng, mk: Mk<C>, out: &mut Out, prefixes: &[&str], pairs: Pairs, variant: u64, sqlite: bool, tag: &str, sc: Scene<C>) {
+    let Scene { mut w, commit_for_b, welcome_for_d, proposals, app_for_b, late_app_for_b, flavor } = sc;
+    // --- B processes the proposals, an application message and then A's commit ---------------------------------
+    // (receiving a proposal only verifies and caches it: no provider is involved, whatever the proposal type; the
+    // by-reference PSK / Add / re-init are validated -- PSK store, identity provider -- when the commit is processed)
+    for (s, p) in &proposals {
+        if *s == 1 {
             continue;
         }
-        w0.members[subject].h.fault.lock().unwrap().counted_prefixes = prefixes.iter().map(|s| s.to_string()).collect();
-        w0.fault_arm(subject, vec![]);
-        let (r, _) = w0.with_group(subject, |g| g.write_to_storage());
-        let calls = w0.fault_log(subject);
+        let pm = p.clone();
+        sweep(&mut w, 1, &format!("process-proposal[{tag}]"), prefixes, true, pairs, Some("cached-only"), out, &move |g| g.process_incoming_message(pm.clone()).map(|_| ()));
+        let p2 = p.clone();
+        w.with_group(1, |g| g.process_incoming_message(p2));
+    }
+    if let Some(a) = app_for_b.clone() {
+        sweep(&mut w, 1, &format!("process-app[{tag}]"), prefixes, true, pairs, Some("current-epoch"), out, &move |g| g.process_incoming_message(a.clone()).map(|_| ()));
+    }
+    let cm = commit_for_b.clone().unwrap();
+    let cm2 = cm.clone();
+    let comps_b = w.components(1);
+    if flavor == Flavor::OwnUpdate {
+        if comp(&comps_b, "pending_updates").is_empty() || comp(&comps_b, "own_proposals").is_empty() {
+            out.fails.push(format!("scene {tag}: B has no pending Update of its own"));
+        }
+        out.cover.insert(format!("own-pending-update:committed={}", (variant % 2 == 0) as u8));
+        if variant % 2 == 0 {
+            // the fault-free processing switches B's signer (so "signer unchanged after a fault" is not vacuous)
+            let mut t = w.group(1).clone();
+            let r = t.process_incoming_message(cm.clone());
+            if r.is_err() || comp(&t.verif_components(), "signer") == comp(&comps_b, "signer") {
+                out.fails.push(format!("scene {tag}: A's commit does not install the signer of B's own Update ({:?})", r.err().map(|e| err_class(&e))));
+            } else {
+                out.cover.insert("own-pending-update:new-signer".into());
+            }
+        }
+    }
+    if flavor == Flavor::Plain && variant % 2 == 1 {
+        // B has a pending commit of its own when A's commit arrives: a failed processing must keep it
+        let (r, _) = w.with_group(1, |g| g.commit(vec![]));
+        if r.ok() && !comp(&w.components(1), "pending_commit").is_empty() {
+            out.cover.insert("receiver-has-pending-commit".into());
+        } else {
+            out.fails.push(format!("scene {tag}: B cannot build a commit of its own: {}", r.s()));
+        }
+    }
+    let n = sweep(&mut w, 1, &format!("process-commit[{tag}]"), prefixes, true, pairs, None, out, &move |g| g.process_incoming_message(cm2.clone()).map(|_| ()));
+    if flavor == Flavor::ReInit && n > 0 {
+        // the fault-free processing does set the marker (so "pending_reinit unchanged after a fault" is not vacuous)
+        let mut t = w.group(1).clone();
+        let _ = t.process_incoming_message(cm.clone());
+        if comp(&t.verif_components(), "pending_reinit") == comp(&comps_b, "pending_reinit") {
+            out.fails.push(format!("scene {tag}: processing the re-init commit does not set pending_reinit"));
+        }
+        out.cover.insert(format!("reinit-commit:by-ref={}", (variant % 2 == 1) as u8));
+    }
+    // --- A applies its pending commit ------------------------------------------------------------------
+    // (with unwritten epochs the repository knows the next epoch id itself and asks nobody)
+    let a_unwritten = !comp(&w.components(0), "repo_pending_inserts").is_empty();
+    sweep(&mut w, 0, &format!("apply-pending[{tag}]"), prefixes, true, pairs, a_unwritten.then_some("unwritten-epochs"), out, &|g| g.apply_pending_commit().map(|_| ()));
+    // --- C builds a commit of its own (fails on purpose nowhere; faults in PSK / storage lookups) -------
+    // (a re-init proposed by C itself cannot be combined with PSKs: C forgets it first; its own by-reference PSK / Add
+    // proposals get a sweep of their own)
+    if flavor == Flavor::ByRef && !out.skip_byref_build {
+        build_byref_sweep(&mut w, 2, prefixes, out, tag);
+    }
+    if flavor == Flavor::ReInit || flavor == Flavor::ByRef {
+        w.with_group(2, |g| {
+            g.clear_proposal_cache();
+            Ok(())
+        });
+    }
+    let pid: Vec<u8> = w.psks.keys().next().cloned().unwrap();
+    let ce = w.group(2).current_epoch();
+    sweep(&mut w, 2, &format!("build-commit[{tag}]"), prefixes, false, pairs, None, out, &move |g| {
+        let mut b = g.commit_builder().add_external_psk(ext_psk_id(&pid))?;
+        if ce >= 1 {
+            b = b.add_resumption_psk(ce - 1)?;
+        }
+        let r = b.build().map(|_| ());
+        if r.is_ok() {
+            g.clear_pending_commit();
+        }
+        r
+    });
+    // --- D joins through the Welcome ---------------------------------------------------------------------
+    if let Some(wm) = welcome_for_d {
+        join_sweep(&mut w, 3, &wm, prefixes, pairs, out, tag);
+    }
+    // --- B reads an application message of the previous epoch, which it holds only in storage -------------
+    if let Some(m) = late_app_for_b {
+        let (r, _) = w.with_group(1, |g| g.write_to_storage());
+        if !r.ok() {
+            out.fails.push(format!("scene {tag}: B cannot write: {}", r.s()));
+        } else {
+            w.members[1].wrote = true;
+            let n = sweep(&mut w, 1, &format!("process-app-late[{tag}]"), prefixes, true, pairs, None, out, &move |g| g.process_incoming_message(m.clone()).map(|_| ()));
+            if n > 0 {
+                out.cover.insert("late-app-from-storage".into());
+            }
+            // --- B's written group is loaded again ---------------------------------------------------------
+            load_sweep(&mut w, 1, prefixes, pairs, out, tag);
+        }
+    }
+    // --- a new client creates a group, publishes a key package ---------------------------------------------
+    if flavor == Flavor::Plain {
+        create_sweep(&mut w, mk, prefixes, pairs, sqlite, out, tag);
+    }
+    // --- write_to_storage with unwritten epochs: every call fails once, same group state and same storage every time ----
+    write_sweep(rng, mk, out, prefixes, pairs, variant, flavor, sqlite, tag);
+    for m in &w.members {
+        if let Some(p) = &m.h.sqlite_path {
+            let _ = std::fs::remove_file(p);
+        }
+    }
+}
+
+/// C commits the proposals in its cache (by reference: an external PSK and an Add).  A provider failure while they are
+/// validated must fail the build, not silently produce a commit without them.
+fn build_byref_sweep<C: MlsConfig>(w: &mut World<C>, i: usize, prefixes: &[&str], out: &mut Out, tag: &str) {
+    let name = w.members[i].setup.name.clone();
+    set_prefixes(&w.members[i].h, prefixes);
+    let base = w.members[i].group.clone().expect("group");
+    let kinds = |o: &mls_rs::group::CommitOutput| o.unused_proposals.iter().map(|p| proposal_kind(&p.proposal)).collect::<Vec<_>>().join(",");
+    w.fault_arm(i, vec![]);
+    let mut twin = base.clone();
+    let dry = twin.commit_builder().build();
+    let calls = w.fault_log(i);
+    out.ops += 1;
+    match &dry {
+        Ok(o) if o.unused_proposals.is_empty() => {}
+        Ok(o) => {
+            out.fails.push(format!("build-commit-byref[{tag}] by {name}: the fault-free build leaves [{}] unused", kinds(o)));
+            return;
+        }
+        Err(e) => {
+            out.fails.push(format!("build-commit-byref[{tag}] by {name} fails without any fault: {}", err_class(e)));
+            return;
+        }
+    }
+    if calls.is_empty() {
+        out.fails.push(format!("nothing to fault in build-commit-byref[{tag}]"));
+    }
+    out.cover.insert(format!("build-commit-byref:calls={}", calls.iter().map(|c| c.split(':').nth(1).unwrap_or("")).collect::<Vec<_>>().join("+")));
+    let stored0 = stored(w, i);
+    for n in 1..=calls.len() as u64 {
+        let mut g = base.clone();
+        let before = comps_relevant(&g.verif_components());
+        w.fault_arm(i, vec![n]);
+        let r = std::panic::catch_unwind(std::panic::AssertUnwindSafe(|| g.commit_builder().build()));
+        let fired = w.fault_fired(i);
+        count_fired(out, &fired);
+        match r {
+            Err(_) => out.fails.push(format!("build-commit-byref[{tag}] by {name}: panic with fault at call {n}")),
+            Ok(Ok(o)) => {
+                // (an error of the IDENTITY provider is how an application refuses a credential: the filter drops a by-reference
+                // Add whose identity is refused, by design — property C10; only the stores can "fail")
+                if fired.iter().all(|c| c.contains("id.")) && !fired.is_empty() {
+                    out.cover.insert("byref-add-dropped-on-identity-provider-error".into());
+                } else if !fired.is_empty() {
+                    out.fails.push(format!(
+                        "build-commit-byref[{tag}] by {name}: provider call {} failed while the cached by-reference proposals were validated, yet the build reports success: the commit silently leaves out [{}] (only listed as unused), the provider's error is lost",
+                        fired.join(","),
+                        kinds(&o)
+                    ));
+                    out.cover.insert("byref-proposal-dropped-on-provider-failure".into());
+                }
+            }
+            Ok(Err(e)) => {
+                if fired.is_empty() {
+                    out.fails.push(format!("build-commit-byref[{tag}] by {name} failed without an injected fault: {}", err_class(&e)));
+                }
+                out.cover.insert(format!("fault-reported-as:{}", err_class(&e)));
+                let ch = World::<C>::changed(&before, &comps_relevant(&g.verif_components()));
+                if !ch.is_empty() {
+                    out.fails.push(format!("build-commit-byref[{tag}] by {name}: fault at {} left the member changed in {ch:?}", fired.join(",")));
+                }
+                if stored(w, i) != stored0 {
+                    out.fails.push(format!("build-commit-byref[{tag}] by {name}: fault at {} changed the stored history", fired.join(",")));
+                }
+                w.fault_arm(i, vec![]);
+                match g.commit_builder().build() {
+                    Ok(o) if o.unused_proposals.is_empty() => {}
+                    Ok(o) => out.fails.push(format!("build-commit-byref[{tag}] by {name}: the retry after the fault at {} leaves [{}] unused", fired.join(","), kinds(&o))),
+                    Err(e) => out.fails.push(format!("build-commit-byref[{tag}] by {name}: the retry after the fault at {} fails: {}", fired.join(","), err_class(&e))),
+                }
+            }
+        }
+    }
+    w.fault_reset(i);
+}
+
+/// join_group: every provider call fails once (pairs: again on the retry); a failed join leaves the key-package store and the
+/// storage as they were; the retry joins and gives the group of the fault-free join.
+fn join_sweep<C: MlsConfig>(w: &mut World<C>, d: usize, wm: &MlsMessage, prefixes: &[&str], pairs: Pairs, out: &mut Out, tag: &str) {
+    set_prefixes(&w.members[d].h, prefixes);
+    w.fault_arm(d, vec![]);
+    let kp0 = kp_ids(&w.members[d].h);
+    let groups0 = stored_group_count(&w.members[d].h.store);
+    let dry = w.members[d].client.join_group(None, wm, None);
+    let calls = w.fault_log(d);
+    out.ops += 1;
+    let gd = match dry {
+        Ok((g, _)) => g,
+        Err(e) => {
+            out.fails.push(format!("join[{tag}] fails without fault: {}", err_class(&e)));
+            return;
+        }
+    };
+    let expected = comps_relevant(&gd.verif_components());
+    if calls.is_empty() {
+        out.fails.push(format!("nothing to fault in join[{tag}]"));
+    }
+    if kp_ids(&w.members[d].h) != kp0 || stored_group_count(&w.members[d].h.store) != groups0 {
+        out.fails.push(format!("join[{tag}]: joining alone already changes the key-package store or the storage"));
+    }
+    for plan in plans_for(calls.len() as u64, pairs) {
+        if plan.len() > 1 {
+            out.cover.insert("pair:join".into());
+        }
+        let mut joined = None;
+        for &n in &plan {
+            w.fault_arm(d, vec![n]);
+            let r = std::panic::catch_unwind(std::panic::AssertUnwindSafe(|| w.members[d].client.join_group(None, wm, None)));
+            let fired = w.fault_fired(d);
+            count_fired(out, &fired);
+            match r {
+                Err(_) => out.fails.push(format!("join[{tag}]: panic with fault at call {n}")),
+                Ok(Ok((g, _))) => {
+                    if !fired.is_empty() {
+                        out.fails.push(format!("join[{tag}] succeeded although {} failed", fired.join(",")));
+                    }
+                    joined = Some(g);
+                    break;
+                }
+                Ok(Err(e)) => {
+                    if fired.is_empty() {
+                        out.fails.push(format!("join[{tag}] failed without an injected fault: {}", err_class(&e)));
+                    } else {
+                        out.cover.insert(format!("fault-reported-as:{}", err_class(&e)));
+                    }
+                    if kp_ids(&w.members[d].h) != kp0 {
+                        out.fails.push(format!("join[{tag}]: the join that failed at {} changed the key-package store", fired.join(",")));
+                    }
+                    if stored_group_count(&w.members[d].h.store) != groups0 || w.members[d].h.store.peek_state(gd.group_id()).is_some() {
+                        out.fails.push(format!("join[{tag}]: the join that failed at {} left something in the storage", fired.join(",")));
+                    }
+                }
+            }
+        }
+        if joined.is_none() {
+            w.fault_arm(d, vec![]);
+            match w.members[d].client.join_group(None, wm, None) {
+                Ok((g, _)) => joined = Some(g),
+                Err(e) => out.fails.push(format!("join[{tag}]: retry after fault(s) at {plan:?} ({}) fails: {}", calls[plan[0] as usize - 1], err_class(&e))),
+            }
+        }
+        if let Some(g) = joined {
+            let ch = World::<C>::changed(&expected, &comps_relevant(&g.verif_components()));
+            if !ch.is_empty() {
+                out.fails.push(format!("join[{tag}]: the group joined after fault(s) at {plan:?} differs from the fault-free join in {ch:?}"));
+            }
+            if kp_ids(&w.members[d].h) != kp0 {
+                out.fails.push(format!("join[{tag}]: key-package store after fault(s) at {plan:?} and retry differs from the fault-free join"));
+            }
+            out.cover.insert("join:compared-with-fault-free".into());
+        }
+    }
+    out.cover.insert(format!("join:calls={}", calls.len().min(9)));
+    w.fault_reset(d);
+}
+
+/// load_group of member `i`'s written group: the storage read fails -> error; the retry loads the written state.
+fn load_sweep<C: MlsConfig>(w: &mut World<C>, i: usize, prefixes: &[&str], pairs: Pairs, out: &mut Out, tag: &str) {
+    let name = w.members[i].setup.name.clone();
+    let gid = w.group(i).group_id().to_vec();
+    let skip = |c: &String| c == "repo_pending_kp_removal" || c == "repo_pending_updates" || c == "repo_pending_inserts";
+    let written = w.components(i);
+    let st0 = stored(w, i);
+    set_prefixes(&w.members[i].h, prefixes);
+    w.fault_arm(i, vec![]);
+    let dry = w.members[i].client.load_group(&gid);
+    let calls = w.fault_log(i);
+    out.ops += 1;
+    match dry {
+        Ok(g) => {
+            let ch: Vec<String> = World::<C>::changed(&written, &g.verif_components()).into_iter().filter(|c| !skip(c)).collect();
+            if !ch.is_empty() {
+                out.fails.push(format!("load[{tag}] by {name}: the loaded group differs from the written one in {ch:?}"));
+            }
+        }
+        Err(e) => {
+            out.fails.push(format!("load[{tag}] by {name} fails without fault: {}", err_class(&e)));
+            return;
+        }
+    }
+    if !calls.iter().any(|c| c.contains("storage.state")) {
+        out.fails.push(format!("nothing to fault in load[{tag}] (calls {calls:?})"));
+    }
+    out.cover.insert(format!("load:calls={}", calls.iter().map(|c| c.split(':').nth(1).unwrap_or("")).collect::<Vec<_>>().join("+")));
+    for plan in plans_for(calls.len() as u64, pairs) {
+        if plan.len() > 1 {
+            out.cover.insert("pair:load".into());
+        }
+        let mut loaded = None;
+        for &n in &plan {
+            w.fault_arm(i, vec![n]);
+            let r = std::panic::catch_unwind(std::panic::AssertUnwindSafe(|| w.members[i].client.load_group(&gid)));
+            let fired = w.fault_fired(i);
+            count_fired(out, &fired);
+            match r {
+                Err(_) => out.fails.push(format!("load[{tag}] by {name}: panic with fault at call {n}")),
+                Ok(Ok(g)) => {
+                    if !fired.is_empty() {
+                        out.fails.push(format!("load[{tag}] by {name} succeeded although {} failed", fired.join(",")));
+                    }
+                    loaded = Some(g);
+                    break;
+                }
+                Ok(Err(e)) => {
+                    if fired.is_empty() {
+                        out.fails.push(format!("load[{tag}] by {name} failed without an injected fault: {}", err_class(&e)));
+                    } else {
+                        out.cover.insert(format!("fault-reported-as:{}", err_class(&e)));
+                    }
+                    if stored(w, i) != st0 {
+                        out.fails.push(format!("load[{tag}] by {name}: the failed load changed the stored history"));
+                    }
+                }
+            }
+        }
+        if loaded.is_none() {
+            w.fault_arm(i, vec![]);
+            match w.members[i].client.load_group(&gid) {
+                Ok(g) => loaded = Some(g),
+                Err(e) => out.fails.push(format!("load[{tag}] by {name}: retry after fault(s) at {plan:?} fails: {}", err_class(&e))),
+            }
+        }
+        if let Some(g) = loaded {
+            let ch: Vec<String> = World::<C>::changed(&written, &g.verif_components()).into_iter().filter(|c| !skip(c)).collect();
+            if !ch.is_empty() {
+                out.fails.push(format!("load[{tag}] by {name}: the group loaded after fault(s) at {plan:?} differs from the written one in {ch:?}"));
+            }
+            if stored(w, i) != st0 {
+                out.fails.push(format!("load[{tag}] by {name}: loading changed the stored history"));
+            }
+            out.cover.insert("load:retry-equals-written".into());
+        }
+    }
+    w.fault_reset(i);
+}
+
+/// create_group by a new client E, generate_key_package_message by a new client F (then E adds F, F joins: the package made by the
+/// retry is a working one), load_group of E's written group.
+fn create_sweep<C: MlsConfig>(w: &mut World<C>, mk: Mk<C>, prefixes: &[&str], pairs: Pairs, sqlite: bool, out: &mut Out, tag: &str) {
+    let ret = w.members[0].setup.retention;
+    let e = new_client(w, mk, "E", sqlite, ret);
+    // create: the identity provider is the only provider a creation consults; it is counted here whatever the mode, so that the
+    // sweep says which calls a creation makes and fails each of them
+    let mut pf: Vec<&str> = prefixes.to_vec();
+    if !pf.contains(&"id.") {
+        pf.push("id.");
+    }
+    set_prefixes(&w.members[e].h, &pf);
+    w.fault_arm(e, vec![]);
+    let dry = w.members[e].client.create_group(Default::default(), Default::default(), None);
+    let calls = w.fault_log(e);
+    out.ops += 1;
+    if let Err(err) = &dry {
+        out.fails.push(format!("create[{tag}] fails without fault: {}", err_class(err)));
+        return;
+    }
+    let names: Vec<String> = calls.iter().map(|c| c.split(':').nth(1).unwrap_or("").split(' ').next().unwrap_or("").to_string()).collect();
+    out.cover.insert(format!("create:calls={}", if names.is_empty() { "none".to_string() } else { names.join("+") }));
+    // which calls: creating a group stores nothing, consumes nothing, needs no PSK
+    let app_calls: Vec<&String> = names.iter().filter(|n| !n.starts_with("id.")).collect();
+    if !app_calls.is_empty() {
+        out.fails.push(format!("create[{tag}] calls the storage / key-package / PSK providers: {app_calls:?}"));
+    } else {
+        out.cover.insert("no-provider-call:create:storage-kp-psk-untouched".into());
+    }
+    if calls.is_empty() {
+        out.fails.push(format!("nothing to fault in create[{tag}]"));
+    }
+    let groups0 = stored_group_count(&w.members[e].h.store);
+    let mut created = None;
+    for plan in plans_for(calls.len() as u64, pairs) {
+        if plan.len() > 1 {
+            out.cover.insert("pair:create".into());
+        }
+        let mut got = None;
+        for &n in &plan {
+            w.fault_arm(e, vec![n]);
+            let r = std::panic::catch_unwind(std::panic::AssertUnwindSafe(|| w.members[e].client.create_group(Default::default(), Default::default(), None)));
+            let fired = w.fault_fired(e);
+            count_fired(out, &fired);
+            match r {
+                Err(_) => out.fails.push(format!("create[{tag}]: panic with fault at call {n}")),
+                Ok(Ok(g)) => {
+                    if !fired.is_empty() {
+                        out.fails.push(format!("create[{tag}] returned a group although {} failed", fired.join(",")));
+                    }
+                    got = Some(g);
+                    break;
+                }
+                Ok(Err(err)) => {
+                    if fired.is_empty() {
+                        out.fails.push(format!("create[{tag}] failed without an injected fault: {}", err_class(&err)));
+                    } else {
+                        out.cover.insert(format!("fault-reported-as:{}", err_class(&err)));
+                    }
+                    if stored_group_count(&w.members[e].h.store) != groups0 || !kp_ids(&w.members[e].h).is_empty() {
+                        out.fails.push(format!("create[{tag}]: the creation that failed at {} left something in the storage / key-package store", fired.join(",")));
+                    }
+                }
+            }
+        }
+        if got.is_none() {
+            w.fault_arm(e, vec![]);
+            match w.members[e].client.create_group(Default::default(), Default::default(), None) {
+                Ok(g) => got = Some(g),
+                Err(err) => out.fails.push(format!("create[{tag}]: retry after fault(s) at {plan:?} fails: {}", err_class(&err))),
+            }
+        }
+        if let Some(g) = got {
+            if g.current_epoch() != 0 || g.roster().members_iter().count() != 1 || g.has_pending_commit() {
+                out.fails.push(format!("create[{tag}]: the group created after fault(s) at {plan:?} is not a fresh one-member group"));
+            }
+            out.cover.insert("create:retry-ok".into());
+            created = Some(g);
+        }
+    }
+    w.fault_reset(e);
+    let Some(g) = created.or(dry.ok()) else { return };
+    w.members[e].group = Some(g);
+    // ---- key-package generation by F -------------------------------------------------------------------
+    let f = new_client(w, mk, "F", sqlite, ret);
+    set_prefixes(&w.members[f].h, prefixes);
+    w.fault_arm(f, vec![]);
+    let dry = w.members[f].client.generate_key_package_message(Default::default(), Default::default(), None);
+    let calls = w.fault_log(f);
+    out.ops += 1;
+    if dry.is_err() {
+        out.fails.push(format!("keygen[{tag}] fails without fault"));
+        return;
+    }
+    if !calls.iter().any(|c| c.contains("kp.insert")) {
+        out.fails.push(format!("nothing to fault in keygen[{tag}] (calls {calls:?})"));
+    }
+    out.cover.insert(format!("keygen:calls={}", calls.iter().map(|c| c.split(':').nth(1).unwrap_or("")).collect::<Vec<_>>().join("+")));
+    let mut kp_msg = None;
+    for plan in plans_for(calls.len() as u64, pairs) {
+        if plan.len() > 1 {
+            out.cover.insert("pair:keygen".into());
+        }
+        let kp0 = kp_ids(&w.members[f].h);
+        let mut got = None;
+        for &n in &plan {
+            w.fault_arm(f, vec![n]);
+            let r = std::panic::catch_unwind(std::panic::AssertUnwindSafe(|| w.members[f].client.generate_key_package_message(Default::default(), Default::default(), None)));
+            let fired = w.fault_fired(f);
+            count_fired(out, &fired);
+            match r {
+                Err(_) => out.fails.push(format!("keygen[{tag}]: panic with fault at call {n}")),
+                Ok(Ok(m)) => {
+                    if !fired.is_empty() {
+                        out.fails.push(format!("keygen[{tag}] returned a key package although {} failed", fired.join(",")));
+                    }
+                    got = Some(m);
+                    break;
+                }
+                Ok(Err(err)) => {
+                    if fired.is_empty() {
+                        out.fails.push(format!("keygen[{tag}] failed without an injected fault: {}", err_class(&err)));
+                    } else {
+                        out.cover.insert(format!("fault-reported-as:{}", err_class(&err)));
+                    }
+                    if kp_ids(&w.members[f].h) != kp0 {
+                        out.fails.push(format!("keygen[{tag}]: the generation that failed at {} stored something", fired.join(",")));
+                    }
+                    out.cover.insert("keygen:fault-stores-nothing".into());
+                }
+            }
+        }
+        if got.is_none() {
+            w.fault_arm(f, vec![]);
+            match w.members[f].client.generate_key_package_message(Default::default(), Default::default(), None) {
+                Ok(m) => got = Some(m),
+                Err(err) => out.fails.push(format!("keygen[{tag}]: retry after fault(s) at {plan:?} fails: {}", err_class(&err))),
+            }
+        }
+        if got.is_some() && kp_ids(&w.members[f].h).len() != kp0.len() + 1 {
+            out.fails.push(format!("keygen[{tag}]: after fault(s) at {plan:?} and retry the store holds {} packages, expected {}", kp_ids(&w.members[f].h).len(), kp0.len() + 1));
+        }
+        kp_msg = got.or(kp_msg);
+    }
+    w.fault_reset(f);
+    // the package made by the retry works: E adds F, F joins
+    if let Some(kp) = kp_msg {
+        let (r, o) = w.with_group(e, |g| g.commit_builder().add_member(kp)?.build());
+        match o {
+            Some(o) => {
+                w.with_group(e, |g| g.apply_pending_commit());
+                match o.welcome_messages.first().map(|wm| w.members[f].client.join_group(None, wm, None)) {
+                    Some(Ok((g, _))) => {
+                        if g.epoch_authenticator().ok().map(|s| s.as_bytes().to_vec()) != w.group(e).epoch_authenticator().ok().map(|s| s.as_bytes().to_vec()) {
+                            out.fails.push(format!("keygen[{tag}]: the joiner disagrees with the group created after a fault"));
+                        }
+                        out.cover.insert("keygen:retry-package-joins-created-group".into());
+                    }
+                    other => out.fails.push(format!("keygen[{tag}]: the key package made by the retry cannot join: {:?}", other.map(|r| r.err().map(|e| err_class(&e))))),
+                }
+            }
+            None => out.fails.push(format!("create[{tag}]: the group created after a fault cannot add a member: {}", r.s())),
+        }
+    }
+    // E writes and loads its group
+    let (r, _) = w.with_group(e, |g| g.write_to_storage());
+    if !r.ok() {
+        out.fails.push(format!("create[{tag}]: the created group cannot be written: {}", r.s()));
+        return;
+    }
+    load_sweep(w, e, prefixes, pairs, out, &format!("{tag}-created"));
+}
+
+/// write_to_storage mutates the storage.  The subject's group is cloned and its storage / key-package store put back before
+/// every attempt, so every run starts from the same member state on the same stored history and the stored BYTES (snapshot and
+/// every epoch record) after fault + retry are compared with the fault-free write.
+#[allow(clippy::too_many_arguments)]
+fn write_sweep<C: MlsConfig>(rng: &mut Rng, mk: Mk<C>, out: &mut Out, prefixes: &[&str], pairs: Pairs, variant: u64, flavor: Flavor, sqlite: bool, tag: &str) {
+    let seed = rng.next();
+    let build = |seed: u64| -> Option<World<C>> {
+        let mut r = Rng::new(seed);
+        let sc = scene(&mut r, mk, variant, sqlite, flavor).ok()?;
+        let Scene { mut w, commit_for_b, welcome_for_d, proposals, .. } = sc;
+        let cm = commit_for_b?;
+        for i in 1..3 {
+            for (s, p) in &proposals {
+                if *s != i {
+                    let p = p.clone();
+                    w.with_group(i, |g| g.process_incoming_message(p));
+                }
+            }
+        }
+        w.with_group(0, |g| g.apply_pending_commit());
+        for i in 1..3 {
+            let m = cm.clone();
+            let (r, _) = w.with_group(i, |g| g.process_incoming_message(m));
+            if !r.ok() {
+                return None;
+            }
+        }
+        if let Some(wm) = welcome_for_d {
+            let (g, _) = w.members[3].client.join_group(None, &wm, None).ok()?;
+            w.members[3].group = Some(g);
+        }
+        Some(w)
+    };
+    let Some(mut w) = build(seed) else {
+        out.fails.push(format!("write-sweep scene {tag} cannot be built"));
+        return;
+    };
+    // subject: member 3 (D) right after joining (its first write also deletes the used key package), or B
+    for subject in [1usize, 3] {
+        if w.members[subject].group.is_none() {
+            continue;
+        }
+        let base = w.members[subject].group.clone().unwrap();
+        let gid = base.group_id().to_vec();
+        let env0 = env_snap(&w.members[subject].h, &gid);
+        set_prefixes(&w.members[subject].h, prefixes);
+        w.fault_arm(subject, vec![]);
+        let (r, _) = w.with_group(subject, |g| g.write_to_storage());
+        let calls = w.fault_log(subject);
         out.ops += 1;
         if !r.ok() {
             out.fails.push(format!("write[{tag}] by member {subject} fails without fault: {}", r.s()));
             continue;
         }
-        let exp_store = stored(&w0, subject);
+        if calls.is_empty() {
+            out.fails.push(format!("nothing to fault in write[{tag}] by member {subject}"));
+        }
+        let exp_store = stored(&w, subject);
         let exp_ids: Vec<u64> = exp_store.2.iter().map(|x| x.0).collect();
-        let exp_comp = comps_relevant(&w0.components(subject));
-        let kp_left0 = w0.members[subject].h.kp.inner.key_packages().len();
+        let exp_comp = comps_relevant(&w.components(subject));
+        let exp_kp = kp_ids(&w.members[subject].h);
         out.cover.insert(format!("write:subject={subject}:calls={}", calls.len()));
+        // second fault on the retry: the retry's first call (few) or each of its calls (all)
+        let mut plans: Vec<Vec<u64>> = (1..=calls.len() as u64).map(|n| vec![n]).collect();
         for n in 1..=calls.len() as u64 {
-            let Some(mut w) = build(seed) else { continue };
-            w.members[subject].h.fault.lock().unwrap().counted_prefixes = prefixes.iter().map(|s| s.to_string()).collect();
-            let before = comps_relevant(&w.components(subject));
-            let stored_before = stored(&w, subject);
-            w.fault_arm(subject, vec![n]);
-            let (r, _) = w.with_group(subject, |g| g.write_to_storage());
-            let fired = w.fault_fired(subject);
-            out.injected += fired.len() as u64;
-            for c in &fired {
-                let k = c.split(':').nth(1).unwrap_or("").split(' ').next().unwrap_or("").to_string();
-                *out.by_call.entry(k).or_default() += 1;
-            }
-            if r.ok() {
-                out.fails.push(format!("write[{tag}] by member {subject} succeeded although {} failed", fired.join(",")));
-                continue;
-            }
-            let after = comps_relevant(&w.components(subject));
-            // A storage write that succeeded before the failing call is an external effect that cannot be taken
-            // back; the member's list of not-yet-stored epochs then has to reflect it.  So that list is compared
-            // together with the storage: every epoch is either stored or still pending, never both, none lost.
-            let ch: Vec<String> = World::<C>::changed(&before, &after).into_iter().filter(|c| c != "repo_pending_inserts").collect();
-            if !ch.is_empty() {
-                out.fails.push(format!("write[{tag}] by member {subject}: fault at {} changed the member in {:?}", fired.join(","), ch));
-            }
-            let pend = |c: &[(String, Vec<u8>)]| -> Vec<u64> {
-                c.iter()
-                    .find(|(k, _)| k == "repo_pending_inserts")
-                    .map(|(_, v)| v.chunks(8).map(|b| u64::from_be_bytes(b.try_into().unwrap())).collect())
-                    .unwrap_or_default()
+            let seconds: Vec<u64> = match pairs {
+                Pairs::None => vec![],
+                Pairs::Few => vec![1],
+                Pairs::All => (1..=calls.len() as u64).collect(),
             };
-            let (p0, p1) = (pend(&before), pend(&after));
-            let s1: Vec<u64> = stored(&w, subject).2.iter().map(|x| x.0).collect();
-            let s0: Vec<u64> = stored_before.2.iter().map(|x| x.0).collect();
-            for e in &p0 {
-                let kept = p1.contains(e) as u8 + s1.contains(e) as u8;
-                // an epoch older than the retention window may legitimately be trimmed by the write
-                if kept == 2 {
-                    out.fails.push(format!("write[{tag}] by member {subject}: after fault at {} epoch {e} is both stored and still pending", fired.join(",")));
+            for m in seconds {
+                plans.push(vec![n, m]);
+            }
+        }
+        for plan in plans {
+            if !env_restore(&w.members[subject].h, &env0) {
+                out.fails.push(format!("write[{tag}] by member {subject}: harness cannot restore the storage"));
+                break;
+            }
+            w.members[subject].group = Some(base.clone());
+            if plan.len() > 1 {
+                out.cover.insert("pair:write".into());
+            }
+            let mut done = false;
+            let mut broken = false;
+            let mut all_fired: Vec<String> = vec![];
+            for &n in &plan {
+                let before = comps_relevant(&w.components(subject));
+                let stored_before = stored(&w, subject);
+                w.fault_arm(subject, vec![n]);
+                let (r, _) = w.with_group(subject, |g| g.write_to_storage());
+                let fired = w.fault_fired(subject);
+                count_fired(out, &fired);
+                all_fired.extend(fired.iter().cloned());
+                if r.ok() {
+                    if !fired.is_empty() {
+                        out.fails.push(format!("write[{tag}] by member {subject} succeeded although {} failed", fired.join(",")));
+                        broken = true;
+                    }
+                    done = true;
+                    break;
                 }
-                if kept == 0 && s1.iter().all(|x| x < e) {
-                    out.fails.push(format!("write[{tag}] by member {subject}: after fault at {} epoch {e} is neither stored nor pending", fired.join(",")));
+                if fired.is_empty() {
+                    out.fails.push(format!("write[{tag}] by member {subject} failed without an injected fault: {}", r.s()));
+                    broken = true;
+                    break;
+                }
+                out.cover.insert(format!("fault-reported-as:{}", r.s().trim_start_matches("err:")));
+                let after = comps_relevant(&w.components(subject));
+                // A storage write that succeeded before the failing call is an external effect that cannot be taken
+                // back; the member's list of not-yet-stored epochs then has to reflect it.  So that list is compared
+                // together with the storage: every epoch is either stored or still pending, never both, none lost.
+                let ch: Vec<String> = World::<C>::changed(&before, &after).into_iter().filter(|c| c != "repo_pending_inserts").collect();
+                if !ch.is_empty() {
+                    out.fails.push(format!("write[{tag}] by member {subject}: fault at {} changed the member in {:?}", fired.join(","), ch));
+                }
+                let pend = |c: &[(String, Vec<u8>)]| -> Vec<u64> { comp(c, "repo_pending_inserts").chunks(8).map(|b| u64::from_be_bytes(b.try_into().unwrap())).collect() };
+                let (p0, p1) = (pend(&before), pend(&after));
+                let st1 = stored(&w, subject);
+                let s1: Vec<u64> = st1.2.iter().map(|x| x.0).collect();
+                let s0: Vec<u64> = stored_before.2.iter().map(|x| x.0).collect();
+                for e in &p0 {
+                    let kept = p1.contains(e) as u8 + s1.contains(e) as u8;
+                    // an epoch older than the retention window may legitimately be trimmed by the write
+                    if kept == 2 {
+                        out.fails.push(format!("write[{tag}] by member {subject}: after fault at {} epoch {e} is both stored and still pending", fired.join(",")));
+                    }
+                    if kept == 0 && s1.iter().all(|x| x < e) {
+                        out.fails.push(format!("write[{tag}] by member {subject}: after fault at {} epoch {e} is neither stored nor pending", fired.join(",")));
+                    }
+                }
+                if p1.iter().any(|e| !p0.contains(e)) || (s1 != s0 && p1 == p0) {
+                    out.fails.push(format!("write[{tag}] by member {subject}: inconsistent bookkeeping after fault at {}: pending {:?}->{:?}, stored {:?}->{:?}", fired.join(","), p0, p1, s0, s1));
+                }
+                // a write that failed before the storage accepted anything leaves the stored bytes alone
+                if fired.iter().any(|c| c.contains("storage.write")) && st1 != stored_before {
+                    out.fails.push(format!("write[{tag}] by member {subject}: the storage refused the write ({}) but the stored bytes changed: {:?}", fired.join(","), stored_diff(&stored_before, &st1)));
                 }
             }
-            if p1.iter().any(|e| !p0.contains(e)) || (s1 != s0 && p1 == p0) {
-                out.fails.push(format!("write[{tag}] by member {subject}: inconsistent bookkeeping after fault at {}: pending {:?}->{:?}, stored {:?}->{:?}", fired.join(","), p0, p1, s0, s1));
-            }
-            // retry
-            w.fault_arm(subject, vec![]);
-            let (r2, _) = w.with_group(subject, |g| g.write_to_storage());
-            if !r2.ok() {
-                out.fails.push(format!("write[{tag}] by member {subject}: retry after fault at {} fails: {}", fired.join(","), r2.s()));
+            if broken {
                 continue;
             }
+            if !done {
+                w.fault_arm(subject, vec![]);
+                let (r2, _) = w.with_group(subject, |g| g.write_to_storage());
+                if !r2.ok() {
+                    out.fails.push(format!("write[{tag}] by member {subject}: retry after fault at {} fails: {}", all_fired.join(","), r2.s()));
+                    continue;
+                }
+            }
+            let fired = all_fired;
             let st = stored(&w, subject);
             let ids: Vec<u64> = st.2.iter().map(|x| x.0).collect();
             if ids != exp_ids || st.1 != exp_store.1 {
@@ -488,6 +1279,12 @@ fn write_sweep<C: MlsConfig>(rng: &mut Rng, mk: Mk<C>, out: &mut Out, prefixes: 
                     exp_ids,
                     exp_store.1
                 ));
+            } else {
+                let d = stored_diff(&exp_store, &st);
+                if !d.is_empty() {
+                    out.fails.push(format!("write[{tag}] by member {subject}: after fault at {} and retry the stored bytes differ from the fault-free write in {d:?}", fired.join(",")));
+                }
+                out.cover.insert("written-bytes-compared:write".into());
             }
             // every retained record must be the one written for that id (index arithmetic of the in-memory store)
             for (id, data) in &st.2 {
@@ -501,32 +1298,28 @@ fn write_sweep<C: MlsConfig>(rng: &mut Rng, mk: Mk<C>, out: &mut Out, prefixes: 
                 }
             }
             let fin = comps_relevant(&w.components(subject));
-            let ch: Vec<String> = World::<C>::changed(&exp_comp, &fin).into_iter().filter(|c| c != "repo_pending_kp_removal").collect();
-            // the two scenario instances use different random keys, so only the repository bookkeeping is comparable
-            let ch: Vec<String> = ch.into_iter().filter(|c| c.starts_with("repo_")).collect();
+            let ch: Vec<String> = World::<C>::changed(&exp_comp, &fin);
             if !ch.is_empty() {
-                out.fails.push(format!("write[{tag}] by member {subject}: repository bookkeeping after retry differs from the fault-free run in {:?}", ch));
+                out.fails.push(format!("write[{tag}] by member {subject}: after fault at {} and retry the member differs from the fault-free run in {:?}", fired.join(","), ch));
             }
-            if w.members[subject].h.kp.inner.key_packages().len() != kp_left0 {
+            if kp_ids(&w.members[subject].h) != exp_kp {
                 out.fails.push(format!("write[{tag}] by member {subject}: key-package store after retry differs from the fault-free run"));
             }
-            // one more write must be a no-op on the stored epoch ids
+            // one more write must be a no-op on the stored history
             let (r3, _) = w.with_group(subject, |g| g.write_to_storage());
             let st3 = stored(&w, subject);
             let ids3: Vec<u64> = st3.2.iter().map(|x| x.0).collect();
             if !r3.ok() || ids3 != exp_ids {
                 out.fails.push(format!("write[{tag}] by member {subject}: a further write after the retry gives {} and epochs {:?} (expected {:?})", r3.s(), ids3, exp_ids));
-            }
-            for m in &w.members {
-                if let Some(p) = &m.h.sqlite_path {
-                    let _ = std::fs::remove_file(p);
-                }
+            } else if st3 != exp_store {
+                out.fails.push(format!("write[{tag}] by member {subject}: a further write after the retry changes the stored bytes in {:?}", stored_diff(&exp_store, &st3)));
             }
         }
-        for m in &w0.members {
-            if let Some(p) = &m.h.sqlite_path {
-                let _ = std::fs::remove_file(p);
-            }
+        w.fault_reset(subject);
+    }
+    for m in &w.members {
+        if let Some(p) = &m.h.sqlite_path {
+            let _ = std::fs::remove_file(p);
         }
     }
 }
@@ -546,10 +1339,10 @@ pub fn run(o: &Opts) -> i32 {
     crate::util::quiet_panics();
     let dir = o.str("out", "/verif/work/c15");
     let mut rng = Rng::new(o.seed());
-    let mut out = Out { fails: vec![], injected: 0, ops: 0, cover: Default::default(), by_call: Default::default(), samples: vec![] };
+    let mut out = Out { fails: vec![], injected: 0, ops: 0, cover: Default::default(), by_call: Default::default(), samples: vec![], skip_byref_build: o.u64("skip-byref-build", 0) == 1 };
     let mk = |s: &Setup, hd: &Handles, id, sk| mk_client(s, hd, id, sk);
     let variants = o.u64("variants", if o.thorough() { 12 } else { 4 });
-    run_sweeps(&mut rng, &mk, &mut out, &["storage.", "kp.", "psk."], o.thorough(), variants);
+    run_sweeps(&mut rng, &mk, &mut out, &["storage.", "kp.", "psk."], if o.thorough() { Pairs::All } else { Pairs::Few }, variants);
     report(&out, &dir, "c15");
     let _ = std::fs::remove_dir_all("/tmp/vharness-scratch-c15");
     0
@@ -563,10 +1356,10 @@ fn _unused(_: ReceivedMessage) {}
 pub fn run_c04_faults(o: &Opts) -> i32 {
     let dir = o.str("out", "/verif/work/c04");
     let mut rng = Rng::new(o.seed() ^ 0xC04);
-    let mut out = Out { fails: vec![], injected: 0, ops: 0, cover: Default::default(), by_call: Default::default(), samples: vec![] };
+    let mut out = Out { fails: vec![], injected: 0, ops: 0, cover: Default::default(), by_call: Default::default(), samples: vec![], skip_byref_build: o.u64("skip-byref-build", 0) == 1 };
     let mk = |s: &Setup, hd: &Handles, id, sk| mk_client(s, hd, id, sk);
     let variants = o.u64("variants", if o.thorough() { 8 } else { 2 });
-    run_sweeps(&mut rng, &mk, &mut out, &["id.", "storage.", "kp.", "psk."], false, variants);
+    run_sweeps(&mut rng, &mk, &mut out, &["id.", "storage.", "kp.", "psk."], Pairs::None, variants);
     println!("faults_injected {}", out.injected);
     println!("faulted_calls {}", out.by_call.iter().map(|(k, v)| format!("{k}={v}")).collect::<Vec<_>>().join(","));
     println!("fault_oracle_failures {}", out.fails.len());
